@@ -23,25 +23,68 @@ def fold(t, mapping):
     return T.subst(t, mapping)
 
 
+def _constant_tables(ctx, f, t):
+    """Module-level names bound once to a literal tuple / list / dict of constants -> constant terms."""
+    import ast
+    mapping = {}
+    for g in T.find(t, lambda x: tag(x) == 'g'):
+        modq, _, nm = g[1].rpartition('.')
+        mod = ctx.project.modules.get(modq)
+        if mod is None or nm not in mod.globals or len(mod.globals[nm]) != 1:
+            continue
+        node = mod.globals[nm][0]
+        try:
+            val = ast.literal_eval(node)
+        except Exception:  # pylint: disable=broad-except
+            continue
+        if isinstance(val, (tuple, list)) and all(isinstance(v, (int, float, str, type(None), bool)) for v in val):
+            mapping[g] = T.C(tuple(val))
+        elif isinstance(val, dict) and all(isinstance(k, (int, str)) for k in val):
+            mapping[g] = ('dict', tuple((T.C(k), T.C(v)) for k, v in val.items()))
+    return mapping
+
+
+def _index_error(t) -> bool:
+    """An indexing of a constant table that could not be folded (out of range / missing key)."""
+    return T.contains(t, lambda x: tag(x) in ('sub', 'col') and (
+        (T.is_const(x[1]) and isinstance(x[1][1], tuple)) or tag(x[1]) == 'dict') and
+        (tag(x) == 'col' or T.is_const(x[2])))
+
+
 def decide_returns(ctx, f, values: dict):
     """values: {param name: const term}. Returns ('return', term) / ('raise', class) / ('none', None)
-    for the unique exit whose guard folds to True; AnalysisError if undecidable."""
+    for the unique exit whose guard folds to True; AnalysisError if undecidable.
+    try / except IndexError|KeyError around a constant-table lookup is decided by folding the lookup."""
     ex, s = summary(ctx, f)
     mapping = {('p', k): v for k, v in values.items()}
-    hits = []
-    for e in s.events:
-        if e.kind not in ('return', 'raise') or e.ctx:
-            continue
-        g = fold(e.guard, mapping)
-        g = _fold_isinstance(g)
-        if g == T.TRUE:
-            hits.append(e)
-        elif g != T.FALSE:
-            raise AnalysisError('E5', f'{f.qname}: exit guard does not fold for {values}: '
-                                      f'{T.show(g, maxlen=200)}')
-    if not hits:
+    events = [e for e in s.events if e.kind in ('return', 'raise') and not e.ctx]
+    tables = {}
+    for e in events:
+        tables.update(_constant_tables(ctx, f, e.value))
+        tables.update(_constant_tables(ctx, f, e.guard))
+    mapping.update(tables)
+
+    def fire(exc_name):
+        hits = []
+        for e in events:
+            g = e.guard
+            excs = {x for x in T.find(g, lambda y: tag(y) == 'exc')}
+            g = T.subst(g, {x: (T.TRUE if (exc_name is not None and exc_name in x[1]) else T.FALSE) for x in excs})
+            g = _fold_isinstance(fold(g, mapping))
+            if g == T.TRUE:
+                hits.append(e)
+            elif g != T.FALSE:
+                raise AnalysisError('E5', f'{f.qname}: exit guard does not fold for {values}: '
+                                          f'{T.show(g, maxlen=200)}')
+        return min(hits, key=lambda x: x.seq) if hits else None
+    e = fire(None)
+    if e is not None and e.kind == 'return' and _index_error(fold(e.value, mapping)):
+        e2 = fire('IndexError') or fire('KeyError') or fire('LookupError') or fire('Exception')
+        if e2 is None:
+            return ('raise', 'builtins.IndexError')
+        e = e2
+    if e is None:
         return ('none', None)
-    e = min(hits, key=lambda x: x.seq)
     if e.kind == 'raise':
         v = e.value
         cls = v[1] if tag(v) == 'new' else (v[1][1] if tag(v) == 'call' and tag(v[1]) == 'g' else None)
